@@ -10,7 +10,9 @@ from hypothesis import strategies as st
 from vlib import chem
 
 PROPERTY = 'C08'
-RULE = ('Hypothesis draws 1-5 distinct chemicals in arbitrary order from 20 volatile database chemicals, a package '
+RULE = ('Hypothesis draws 1-5 distinct chemicals in arbitrary order from 20 volatile database chemicals (in 40 % of the '
+        'multi-chemical cases one of them is replaced, at a drawn position, by Furan or HCN, which have no Dortmund '
+        'groups), a package '
         '(ideal / Dortmund / Dortmund with ideal-gas Poynting factors), a composition on the simplex (interior, with '
         'exact zeros, with 1e-12..1e-6 traces, or a vertex), and T or P inside the quantified box (T in [260,480] K '
         'within every Psat range, P in [5e3,3e6] Pa; the specified variable is confined to where every present '
@@ -35,7 +37,7 @@ ASSUMPTIONS = [
     '|dP|<=1e-6 P + 2e-2 Pa (Chemical.Tsat stops at 1e-2 Pa); scale/permutation |dT|<=1e-4 K, |dP|<=2e-6 P, '
     '|dy|<=2e-6 (two results each within the residual tolerance); normalisation 1e-12',
 ]
-REQUIRED_CELLS = {'quick': ['prelude=none', 'prelude=pkg', 'prelude=perm', 'prelude=pkg+perm', 'op=bubP', 'op=bubT', 'op=dewP', 'op=dewT', 'pkg=ideal', 'pkg=dortmund', 'pkg=dpcf',
+REQUIRED_CELLS = {'quick': ['groupless-member', 'prelude=none', 'prelude=pkg', 'prelude=perm', 'prelude=pkg+perm', 'op=bubP', 'op=bubT', 'op=dewP', 'op=dewT', 'pkg=ideal', 'pkg=dortmund', 'pkg=dpcf',
                             'z=zeros', 'z=trace', 'z=vertex', 'npos=1', 'npos>=2', 'order:judged',
                             'rt:T-P-T', 'rt:P-T-P'],
                   'thorough': []}
@@ -258,6 +260,12 @@ def draw_system(ch, nmin=1, nmax=5, ctx=None):
     pkg = ch.choice('pkg', ['ideal', 'dortmund', 'dortmund', 'dpcf'])
     n = ch.choice('n', [k for k in (2, 3, 1, 2, 3, 4, 5) if nmin <= k <= nmax])
     names = ch.subset('names', POOL, min_size=n, max_size=n)
+    # a volatile chemical WITHOUT Dortmund groups (its activity coefficient is exactly 1 in every package) at a drawn
+    # position of the tuple: the gather/scatter between the full tuple and the group-bearing sub-tuple matters here
+    gl = ch.choice('groupless', [None, 'Furan', None, 'HCN', None])
+    if gl is not None and n >= 2:
+        names[ch.index('groupless.pos', n)] = gl
+        if ctx is not None: ctx.cell('groupless-member')
     z, zkind = draw_z(ch, len(names))
     prelude = ch.choice('prelude', ['none', 'pkg', 'perm', 'none', 'pkg+perm'])
     if prelude != 'none':
